@@ -1188,6 +1188,7 @@ fn prologue(g: &mut Gen, variant: u64) {
             }
         }
     }
+    let mut pk_other: Option<usize> = None;
     if variant % 5 == 2 || variant % 5 == 4 {
         // a second model of the same version whose AR-PACKAGES already holds a package named like one of the first model
         g.push(Op::NewModel);
@@ -1196,6 +1197,7 @@ fn prologue(g: &mut Gen, variant: u64) {
         let root2 = g.ex.hidx[&g.ex.models[m].root_element()];
         let r = g.push(Op::CreateSub(root2, n.elidx("AR-PACKAGES")));
         if let Some(pk2) = r.strip_prefix("R OK h").and_then(|x| x.parse::<usize>().ok()) {
+            pk_other = Some(pk2);
             let r = g.push(Op::CreateNamed(pk2, n.elidx("AR-PACKAGE"), b"p1".to_vec()));
             if let Some(p) = r.strip_prefix("R OK h").and_then(|x| x.parse::<usize>().ok()) {
                 g.push(Op::CreateSub(p, n.elidx("ELEMENTS")));
@@ -1222,7 +1224,18 @@ fn prologue(g: &mut Gen, variant: u64) {
                     0 => { if let Some(b) = br { g.push(Op::Remove(l2, b)); } }
                     1 => { if let Some(t) = tt { g.push(Op::Remove(l2, t)); } }
                     2 => { g.push(Op::RemoveKind(l2, n.elidx("BR"))); }
-                    _ => {}
+                    _ => {
+                        // an IDENTIFIABLE element behind text items of mixed content, then a deep copy of the package or its
+                        // move into another model: the copy / the moved subtree is (un)registered by walking it depth first,
+                        // and that walk has to step over the text items
+                        if oknum(&g.push(Op::CreateNamed(l2, n.elidx("XREF-TARGET"), b"Anchor".to_vec()))).is_some() {
+                            match (pk_other, (variant / 28) % 3) {
+                                (Some(o), 0) => { g.push(Op::Move(o, pkgs[0])); }
+                                (_, 1) => { g.push(Op::CopyAt(pk, pkgs[0], 0)); }
+                                _ => { g.push(Op::Copy(pk, pkgs[0])); }
+                            }
+                        }
+                    }
                 }
             }
         }
